@@ -1,6 +1,7 @@
 import PqModel.Generated.Facts
 
-/-! # C16, write side — no Write entry point of the library stores through the caller's rows
+/-! # C16 — source-level facts: no Write entry point stores through the caller's rows; clones and
+    reconstructed Go values are fresh
 
 `Generated/Facts.lean` is rewritten by `tools/factgen` (family `callerwrites`) from the current source
 on every run: for every method `WriteRows` / `WriteValues` / `WriteRowValues` of the root package taking
@@ -42,5 +43,33 @@ theorem write_entry_points_expected : writeEntryPoints = expectedEntryPoints := 
 theorem mirrored_writers_are_entry_points :
     ∀ n ∈ ["filterRowWriter.WriteRows", "transformRowWriter.WriteRows", "dedupeRowWriter.WriteRows",
            "multiRowWriter.WriteRows", "RowBuffer.WriteRows"], n ∈ writeEntryPoints := by decide
+
+/-! ## read side: clones and reconstructed Go values are fresh copies (family `freshcopies`)
+
+The pool model's `clone` / `readGo` operations allocate (theorems `read_copies`, `readGo_allocates` of
+`Props/C16.lean`). The two source facts that make this true of the code: -/
+
+/-- `Value.Clone` (value.go) gives the clone its own copy of the bytes for exactly the kinds whose
+    `Value` points to memory outside of it (`ByteArray`, `FixedLenByteArray`; all other kinds keep
+    their payload in the `u64` field) -/
+theorem clone_copies_every_pointer_kind : cloneCopiedKinds = ["ByteArray", "FixedLenByteArray"] := by decide
+
+/-- constructors of fresh memory in package reflect -/
+def freshConstructors : List String :=
+  ["reflect.MakeSlice", "reflect.Zero", "reflect.New", "reflect.MakeMap", "reflect.MakeMapWithSize", "reflect.ValueOf"]
+
+/-- every place where the Go-value reconstruction of row.go (`setMakeSlice`, `setNullSlice`,
+    `reconstructFuncOf*`) sets the destination sets it to freshly constructed memory: a destination
+    slice, map or pointer is never refilled in place, so rows kept from an earlier `Read` into the
+    same destination cannot be reached by a later one -/
+theorem destinations_are_set_to_fresh_memory :
+    ∀ s ∈ destinationSetSites, s.2.1 ∈ freshConstructors := by decide
+
+/-- the slice, the map and the pointer destinations are all among the sites (the fact is not vacuous) -/
+theorem destination_sites_cover_slice_map_pointer :
+    ("setMakeSlice", "reflect.MakeSlice", "v.Set(s)") ∈ destinationSetSites ∧
+    ("reconstructFuncOfMap", "reflect.MakeMapWithSize", "value.Set(m)") ∈ destinationSetSites ∧
+    ("reconstructFuncOfOptional", "reflect.New", "value.Set(reflect.New(value.Type().Elem()))") ∈ destinationSetSites := by
+  decide
 
 end PqModel.Props.FactsCheckC16
